@@ -76,6 +76,14 @@ def gen_case(r, cid, tier):
                 {'op': 'inter', 'i': 0, 'j': 1}, {'op': 'addconn', 'i': 0, 'proto': p, 'ps': {'all': False, 'ranges': [[443, 443]], 'named': []}},
                 {'op': 'string', 'i': 1}, {'op': 'equal', 'i': 0, 'j': 1}]
         fresh.discard(0); fresh.add(1)
+    if r.random() < 0.2:
+        # a set with a named port is contained only in a set with that name or with every port number: nearly every number is not enough
+        p, nm = r.choice(PROTOS), r.choice(NAMES)
+        big = r.choice([[[1, 999], [1001, 65535]], [[1, 65534]], [[2, 65535]], [[1, 80], [82, 65535]], [[1, 65535]]])
+        ops += [{'op': 'new', 'i': 0, 'all': False}, {'op': 'addconn', 'i': 0, 'proto': p, 'ps': {'all': False, 'ranges': [[80, 80]], 'named': [nm]}},
+                {'op': 'new', 'i': 1, 'all': False}, {'op': 'addconn', 'i': 1, 'proto': p, 'ps': {'all': False, 'ranges': big, 'named': []}},
+                {'op': 'containedin', 'i': 0, 'j': 1}, {'op': 'containedin', 'i': 1, 'j': 0}, {'op': 'equal', 'i': 0, 'j': 1}]
+        fresh.update([0, 1])
     for _ in range(length):
         x = r.random()
         i = r.randrange(n)
